@@ -24,11 +24,12 @@ type Snapshot struct {
 	PC       int
 	Parked   []*Job
 	ViewIdx  map[string][]*index.Reader
+	ViewTags map[string]string // the tag snapshot each held view works with
 	Released map[string]bool
 }
 
 func (w *World) Snapshot(pc int) (*Snapshot, error) {
-	s := &Snapshot{St: w.Mgr.VerifDump(), Rank: map[string]int{}, digests: map[*index.Reader]string{}, PC: pc, ViewIdx: map[string][]*index.Reader{}, Released: map[string]bool{}}
+	s := &Snapshot{St: w.Mgr.VerifDump(), Rank: map[string]int{}, digests: map[*index.Reader]string{}, PC: pc, ViewIdx: map[string][]*index.Reader{}, ViewTags: map[string]string{}, Released: map[string]bool{}}
 	ents, err := os.ReadDir(w.IndexDir)
 	if err != nil {
 		return nil, err
@@ -61,6 +62,21 @@ func (w *World) Snapshot(pc int) (*Snapshot, error) {
 	for _, hv := range w.Views {
 		s.ViewIdx[hv.Name] = hv.View.VerifViewIndexes()
 		s.Released[hv.Name] = hv.Released
+		if !hv.Released {
+			// which streams were pending for the view decides what it shares with the service and
+			// what it still evaluates itself
+			vt := hv.View.VerifViewTags()
+			var names []string
+			for n := range vt {
+				names = append(names, n)
+			}
+			sort.Strings(names)
+			var sb strings.Builder
+			for _, n := range names {
+				fmt.Fprintf(&sb, " %s:m%v:u%v", n, vt[n][0], vt[n][1])
+			}
+			s.ViewTags[hv.Name] = sb.String() + " pending-at-open{" + hv.PendingAtOpen + "}"
+		}
 	}
 	s.Visible, err = VisibleThrough(s.St.Indexes)
 	if err != nil {
@@ -158,7 +174,7 @@ func (s *Snapshot) Canon() string {
 			vn = append(vn, fmt.Sprintf("view %s released", n))
 			continue
 		}
-		vn = append(vn, fmt.Sprintf("view %s %s", n, s.readersName(idx)))
+		vn = append(vn, fmt.Sprintf("view %s %s tags{%s}", n, s.readersName(idx), s.ViewTags[n]))
 	}
 	sort.Strings(vn)
 	sb.WriteString(strings.Join(vn, "\n"))
